@@ -36,7 +36,7 @@ CHECKS.update({
 
 CHECKS.update({
     "C18": ("proof", "unbounded theorem: the macro's and from_str's exponent foldings agree for every i128 coefficient and isize exponent, "
-            "and Dec!(s) = from_str(s) on the model for every string; the compile-time half (rustc lexer, TokenStream::to_string, const "
+            "and Dec!(s) = from_str(s) on the model for every byte string (str_to_dec's range is a theorem of C06); the compile-time half (rustc lexer, TokenStream::to_string, const "
             "evaluation) is exploration over generated Dec!(lit) programs compiled by rustc and compared with from_str of the implementation (partial, DESIGN §3 C18)",
             "Coq proof (fold agreement) + generated-program compile probe vs implementation from_str + model correspondence", "§3 C18"),
     "C19": ("proof", "unbounded theorem over all histories (any number of threads, any interleaving): each thread's observations equal those of "
@@ -73,8 +73,8 @@ CHECKS.update({
 
 CHECKS.update({
     "C07": ("proof", "unbounded theorems: String::from, Debug's inner text and Display without flags equal the canonical string (sign, integer part, "
-            "'.', exactly f digits) for every well-formed Decimal; the round trip through the parser is stated in full and, until the parser "
-            "theorems are finished, decided by the correspondence run on model and implementation (partial); serde-as-str plumbing is tie only",
+            "'.', exactly f digits) for every well-formed Decimal; parse(to_string(d)) = d for every well-formed d in every profile (through the "
+            "parser theorems of C06: the canonical string is in the grammar, outside K2/K4, and denotes d); serde-as-str plumbing is tie only",
             PROVED, "§3 C07"),
     "C09": ("proof", "unbounded theorems: the binary gcd specialised to 10^e equals Z.gcd (loop by induction with a decreasing measure, a termination "
             "argument the Rust code only assumes), as_integer_ratio = the reduced fraction, which is unique; value-equal Decimals feed identical "
